@@ -273,10 +273,15 @@ DIRECTED = [
     # two actors of the failed host blocked on the same comm: both must be killed (the first kill finishes the comm of the second)
     ("same-host-comm", _sc(*TWO, actors=[(1, ["put m 1e5", "sleep 1"]), (1, ["get m", "sleep 1"]), (0, ["sleep 2"])]),
      _runs("sh", [[_f("H", 1, 0.0)], [_f("H", 1, 1e-6)]], paths="TPA"), ("hooks",)),
-    # a blocking get that ends with an exception, followed by a wait_any / test on something still running
-    ("call-after-failed-call", _sc(*TWO, actors=[(0, ["aexec 0 3e9", "get m", "waitany 0"]), (1, ["put m 1e6"]), (0, ["aexec 0 3e9", "get n", "test 0", "wait 0"]),
-                                                 (1, ["put n 1e6"])]),
-     _runs("cf", [[_f("L", 0, 0.5)]], paths="AT"), ("hooks",)),
+    # wait_any right after calls that ended with an exception (witness found by the enumeration on seed 3, kept as it is: the crash
+    # depends on what the stack contains where the observer of the failed call used to be)
+    ("call-after-failed-call",
+     {"net": "default", "hosts": [{"speed": 2e9, "disk": 1}, {"speed": 1e9, "disk": 1}], "links": [{"bw": 2e6, "lat": 0.0}], "routes": [[0, 1, [0]]], "nmutex": 1,
+      "actors": [{"host": 1, "ops": [["put", "p0_1", "100000"], ["aget", "r0"], ["dput", "p0_1", "1e+06"], ["wait", "1"]]},
+                 {"host": 0, "ops": [["get", "p0_1"], ["aexec", "1", "3e+09"], ["put", "r0", "1e+06"], ["aput", "r2", "1e+06"], ["aput", "r2", "1"], ["test", "3"],
+                                     ["get", "p0_1"], ["wait", "3"], ["waitany", "1", "4"], ["wait", "1"], ["wait", "4"]]},
+                 {"host": 1, "ops": [["aget", "r2"], ["get", "r2"], ["wait", "0"]]}]},
+     [{"id": "cfT", "path": "T", "faults": [_f("L", 0, 0.5953614484536083)]}], ("hooks",)),
     # detached send not yet matched when its source host fails; a get comes later
     ("detached-leftover", _sc(*TWO, actors=[(0, ["dput m 1e6", "sleep 5"]), (1, ["sleep 1", "get m"])]),
      _runs("dl", [[_f("H", 0, 0.5)]], paths="AT"), ("hooks",)),
